@@ -145,11 +145,11 @@ theorem array_index_guard_counterexample :
 
 /-! ## strings, stack, heap, handler lookup: the guards proved elsewhere, collected -/
 
-/-- the repaired string guard is exact; the pinned one accepts every negative index -/
+/-- the string guard is exact (since fix f8907f0; the pinned guard accepted every negative index) -/
 theorem string_index_guard :
-    (∀ len i, stringDerefOkFixed len i = true ↔ (0 ≤ i ∧ i < (len : Int))) ∧
-    (∀ len : Nat, ∀ i : Int, i < 0 → stringDerefOk len i = true) :=
-  ⟨string_index, string_deref_counterexample.2.2⟩
+    (∀ len i, stringDerefOk len i = true ↔ (0 ≤ i ∧ i < (len : Int))) ∧
+    (∀ len : Nat, ∀ i : Int, i < 0 → stringDerefOkPinned len i = true) :=
+  ⟨string_index, string_deref_pinned_counterexample.2.2⟩
 
 /-- a checked push is in bounds or reported (C14) -/
 theorem stack_push_guard (vm : Vm.Vm) (a : Nat) (hs : Vm.StackOk vm) (h0 : -1 ≤ vm.sp) :
